@@ -994,7 +994,8 @@ func (s *State) evalForInteger(fe *ast.ForExpression, start *int64, end int64, n
 				result = s.Errorf("for loop unexpected control type %s", r.ControlType.String())
 			}
 		default:
-			lastEval = nextEval
+			// the value, not the register itself (it is released and reused after the loop).
+			lastEval = object.CopyRegister(nextEval)
 		}
 	}
 	// Release on every way out of the loop (break, return, error included).
